@@ -379,6 +379,7 @@ func gcSafety(c *Check, P string, r *GCRoles) {
 	c05NoOtherLockAcrossWait(c, S, r)
 	// the deliver function runs once per subscription, concurrently: what is shared between those runs is not written
 	c04NoSharedWrites(c, S+".O6", r)
+	c04FanArgsHandedOver(c, S+".O6", r)
 	// a blocking Publish holds the subscribers lock and the topic mutex while it waits for the completion signal of the
 	// fan-out: that signal exists and is raised on every path, or the Pub/Sub (replays included) stands still
 	c05AckedByAll(c, S, r)
